@@ -34,7 +34,7 @@ ASSUMPTIONS = [
     "its own subpath) and a later reverse re-links the lone move to it; a lone move draws nothing",
 ]
 TOLERANCES = {"point": "1e-9 * S", "arc point": "(1e-9 + 1e-15 * ratio^2) * S + max(4, ratio) * closure_gap(arc)"}
-MANDATORY_LABELS = {"quick": ["op:rev", "op:revsub", "op:mul", "op:submul", "shape:closed-nonzero", "shape:closed-zero", "shape:open", "shape:multi", "shape:repeated-segment", "history:double-reverse", "history:measured"]}
+MANDATORY_LABELS = {"quick": ["op:rev", "op:revsub", "op:mul", "op:submul", "shape:closed-nonzero", "shape:closed-zero", "shape:open", "shape:multi", "shape:repeated-segment", "history:double-reverse", "history:measured", "history:fluent"]}
 MANDATORY_LABELS["thorough"] = MANDATORY_LABELS["quick"]
 
 TS = [0.0, 0.2, 0.5, 0.8, 1.0]
@@ -103,7 +103,7 @@ def decode(d, move_led=True):
     if d.chance(1, 4):
         ops = [["rev"], ["rev"]] if d.bool() else [["revsub", d.below(4)], ["revsub", 0]]
         ops[1][1:] = ops[0][1:]
-    return {"segs": segs, "ops": ops, "move_led": move_led, "measure": d.chance(1, 3)}
+    return {"segs": segs, "ops": ops, "move_led": move_led, "measure": d.chance(1, 3), "fluent": d.chance(1, 3)}
 
 
 def parts(tier):
@@ -266,6 +266,9 @@ def check(case):
                 return o.excluded("fragment that the constructors cannot represent")
             raise core.HarnessError("model disagrees with the freshly built path: %s" % bad.detail)
         measured = bool(case.get("measure")) and not no_move
+        cur = p
+        if case.get("fluent"):
+            o.label("history:fluent")
         if measured:
             o.label("history:measured")
         for n, op in enumerate(ops):
@@ -274,10 +277,14 @@ def check(case):
             if measured:
                 c17.observe(p, S)  # length, points along the path, bounding box: whatever this caches must not go stale
             if op[0] == "rev":
-                p.reverse()
+                ret = cur.reverse()
+                if case.get("fluent") and ret is not None:
+                    # fluent use: the history continues on what reverse() returned (p.reverse().reverse() ...); the path
+                    # itself and the returned object must both keep tracing the model
+                    cur = ret
                 subs = [model_reverse_sub(s) for s in reversed(subs)]
             elif op[0] == "revsub":
-                lsubs = list(p.as_subpaths())
+                lsubs = list(cur.as_subpaths())
                 if len(lsubs) != len(subs):
                     return fail(o.violation("subpath-count", "%s: as_subpaths gives %d, model %d" % (where, len(lsubs), len(subs))))
                 i = op[1] % len(subs)
@@ -288,7 +295,7 @@ def check(case):
                 continue
             elif op[0] == "submul":
                 # the transform applied in place through a subpath view: only that subpath of the backing path moves
-                lsubs = list(p.as_subpaths())
+                lsubs = list(cur.as_subpaths())
                 if len(lsubs) != len(subs):
                     return fail(o.violation("subpath-count", "%s: as_subpaths gives %d, model %d" % (where, len(lsubs), len(subs))))
                 i = op[1] % len(subs)
@@ -300,8 +307,8 @@ def check(case):
                            "close": s0["close"].mapped(M) if s0["close"] else None}
             else:
                 M = op[1]["m"]
-                p *= lib.mk_matrix(M)
-                p.reify()
+                cur *= lib.mk_matrix(M)
+                cur.reify()
                 S = max(S, S * gen.mat_norm(M) * 2 + abs(M[4]) + abs(M[5]))
                 subs = [
                     {"own_move": s["own_move"], "move": s["move"].mapped(M) if s["move"] else None, "drawn": [m.mapped(M) for m in s["drawn"]],
@@ -313,6 +320,11 @@ def check(case):
             bad = compare(o, p, subs, S, where)
             if bad is not None:
                 return fail(bad)
+            if cur is not p:
+                o.label("fluent:returned-another-object")
+                bad = compare(o, cur, subs, S, where + " (the object reverse() returned)")
+                if bad is not None:
+                    return fail(bad)
             if measured:
                 have, fresh = c17.observe(p, S), c17.observe(se.Path(p), S)
                 if not c17.same_observations(have, fresh, S):
